@@ -71,6 +71,7 @@ class Interp(object):
         self.exec_sites = set()
         self.strict_unknown = True
         self.regex_patterns = []
+        self.site_script = {}     # id(call terminator) -> list of results to return in order
         self.bulk_by_ref_as_exists = True
         self.deadline = None
         self.budget_s = int(os.environ.get('VF_CALL_BUDGET_S', '90'))
@@ -1630,7 +1631,18 @@ class Interp(object):
             for suf, sink in self.watch.items():
                 if path == suf or path.endswith('::' + suf):
                     sink.append((fr.fname, [self.deref(st, a) if isinstance(a, Ref) else a for a in args]))
-        if path in self.local_summaries and path not in self.no_summary:
+        scripted = self.site_script.get(id(t)) if self.site_script else None
+        if scripted is not None:
+            # a rule drives this call site with prepared results (loop-induction steps over an opaque iterator); the position
+            # in the script is part of the state, so that every explored path sees the whole script
+            cell = ('static', 'script:%d' % id(t))
+            n = st.store.get(cell)
+            n = n.uval() if isinstance(n, BV) and n.known() else 0
+            if n >= len(scripted):
+                raise Undecided('scripted call site exhausted')
+            st.store[cell] = BV.const(n + 1, 32)
+            ret, st2 = scripted[n], st
+        elif path in self.local_summaries and path not in self.no_summary:
             ret, st2 = self.local_summaries[path](self, st, fr, t, args)
         elif path in self.fns and (res is None or res.get('local', True)):
             if self.fns[path].get('kind') == 'Closure' and len(args) == 2 and isinstance(args[1], Struct) \
